@@ -483,6 +483,24 @@ def _edge_tests(repo, ci, fi):
                 if t is None:
                     return False
                 out.add((repr(subj), t))
+            # explicit forms of the same test: |x| <= c, |x - v| <= c (also torch.abs / x.abs()), with a small constant c
+            if isinstance(c, ast.Compare) and len(c.ops) == 1 and isinstance(c.ops[0], (ast.LtE, ast.Lt, ast.GtE, ast.Gt)):
+                small, big = (c.left, c.comparators[0]) if isinstance(c.ops[0], (ast.LtE, ast.Lt)) else (c.comparators[0], c.left)
+                inner = None
+                if isinstance(small, ast.Call) and (attr_chain(small.func) in ("torch.abs", "abs", "torch.absolute")) and len(small.args) == 1:
+                    inner = small.args[0]
+                elif isinstance(small, ast.Call) and isinstance(small.func, ast.Attribute) and small.func.attr in ("abs", "absolute") and not small.args:
+                    inner = small.func.value
+                bound = const(big)
+                if inner is not None and bound is not None and bound <= 1e-2:
+                    target = 0.0
+                    if isinstance(inner, ast.BinOp) and isinstance(inner.op, ast.Sub) and const(inner.right) is not None:
+                        inner, target = inner.left, const(inner.right)
+                    try:
+                        subj = to_rf(inner, atom)
+                    except NotPoly:
+                        return False
+                    out.add((repr(subj), float(target)))
         return True
 
     def visit(fn, env, depth):
@@ -525,6 +543,29 @@ def r7_edge_agreement(repo: Repo, rep):
         rep.check(R, a == b, nor.site(), nor.fq, f"normal() tests exactly {sorted(a)}", f"normal tests {sorted(b)}", f"{sorted(b)} vs {sorted(a)}")
 
 
+EDGE_TABLE = {  # the lines that carry the sides, in barycentric coordinates (X along dir_1, Y along dir_2)
+    "ParallelogramBoundary": [("X", 0.0), ("X", 1.0), ("Y", 0.0), ("Y", 1.0)],
+    "TriangleBoundary": [("X", 0.0), ("X + Y", 1.0), ("Y", 0.0)],
+}
+
+
+def r7b_edge_table(repo: Repo, rep):
+    R = rep.rule("R-C06-7b", "boundary membership of parallelogram / triangle tests closeness to exactly the lines that carry its sides "
+                 "(parallelogram: X = 0, X = 1, Y = 0, Y = 1; triangle: X = 0, Y = 0, X + Y = 1)", floor=2,
+                 why="a triangle tested with the parallelogram's helper also accepts X = 1 and Y = 1: points on those lines are outside the triangle")
+    for mod, cname in (("parallelogram", "ParallelogramBoundary"), ("triangle", "TriangleBoundary")):
+        ci = repo.cls(f"{DOM}.domain2D.{mod}.{cname}")
+        mem = ci.methods.get("_contains")
+        if mem is None:
+            raise AnalysisError(f"{cname}._contains vanished")
+        rep.saw(mem)
+        got = _edge_tests(repo, ci, mem)
+        if not got:
+            rep.undecided(R, mem.site(), mem.fq, "edge tests of the membership extractable", "none")
+            continue
+        rep.check(R, sorted(got) == sorted(EDGE_TABLE[cname]), mem.site(), mem.fq, f"closeness tests are exactly {EDGE_TABLE[cname]}", f"{sorted(got)}", f"{cname}: {sorted(got)}")
+
+
 def r8_walk_from_zero(repo: Repo, rep):
     R = rep.rule("R-C06-8", "polygon boundary samplers walk the sides in local coordinates (a zero buffer) and add the origin once at the end", floor=4,
                  why="the edge tests compare barycentric coordinates with 0 (absolute tolerance 1e-8 only): the closed walk d1 + d2 - d1 - s*d2 cancels exactly around 0, "
@@ -557,6 +598,7 @@ def run(repo: Repo, rep):
     records = r8_side_tolerance(repo, rep)
     r8_walk_from_zero(repo, rep)
     r7_edge_agreement(repo, rep)
+    r7b_edge_table(repo, rep)
     r6_edge_tests(repo, rep, records)
     r1_boolean(repo, rep)
     r2_r3_edges(repo, rep)
@@ -567,6 +609,12 @@ def run(repo: Repo, rep):
     r7_own_columns(repo, rep)
     from .c01 import r1_facts  # normals are promised at the points the boundary samplers return: those must lie on the boundary of the expression
     r1_facts(repo, rep)
+    from .c02 import r15_quota_loops  # normals are promised at the returned boundary samples: a rejection loop that gives up returns the zero row, which is on no boundary
+    r15_quota_loops(repo, rep)
+    from .c05 import r4_cramer  # the side a boundary point lies on is read off its barycentric coordinates: the solve must be exact for triangles of every size
+    r4_cramer(repo, rep)
+    from .c12 import r6_empty_and_slices  # `points[:, list(space.keys())]` relies on Space[[names]] listing the names in the requested order
+    r6_empty_and_slices(repo, rep)
 
 
 _U = "src/torchphysics/problem/domains/domainoperations/union.py"
